@@ -342,6 +342,14 @@ func ruleC11(c *Check, p *Prog) {
 	c.Expect(verdict != nil && nret == 3 && alpha == 0.01, "R-SD-VERDICT", "SingleDetect", where,
 		"the only non-error return is (P >= Alpha(0.01), nil) with P = result #0 of the poker call",
 		fmt.Sprintf("the non-error return is not (P >= Alpha, nil) on the poker P-value (returns: %d)", nret))
+	if c.Prop == "C11" {
+		// the poker test itself for m = 2 (bit path) and m = 4, 8 (byte path), shared with C01
+		for _, sp := range c01Specs {
+			if sp.Key == "PokerProto" || sp.Key == "PokerTestBytes" {
+				checkEquiv(c, p, sp.Rule, sp.Key, sp.Spec, sp.What)
+			}
+		}
+	}
 }
 
 // ---- C12 ----
@@ -375,6 +383,14 @@ func ruleC12(c *Check, p *Prog) {
 			check(20, 19)
 			check(50, 48)
 			check(1000, 981)
+			// every s whose real-valued bound is exactly an integer (where ceil, floor+1 and round disagree), found by integer arithmetic
+			for s := int64(1); s <= 1000000; s++ {
+				if thresholdBoundIsInteger(s) {
+					check(s, exactThreshold(s))
+					check(s+1, exactThreshold(s+1))
+					check(s-1+2*int64(btoi(s == 1)), exactThreshold(s-1+2*int64(btoi(s == 1))))
+				}
+			}
 			if c.Tier == "thorough" {
 				for s := int64(1); s <= 1000000; s++ {
 					check(s, exactThreshold(s))
@@ -391,6 +407,10 @@ func ruleC12(c *Check, p *Prog) {
 	}
 	checkEquiv(c, p, "R-TQ-EQUIV", "ThresholdQ", eqSpec{Pkg: pkgDetect, Name: "ThresholdQ", RefName: "ThresholdQ"}, "10 bins [0,.1)…[.9,1], chi-square vs len/10, Igamc(4.5, V/2)")
 	checkTQCommute(c, p, "R-TQ-COMMUTE")
+	// Q(9/2, .) is the library's incomplete gamma function (shared with C06)
+	for _, sp := range c06Specs {
+		checkEquiv(c, p, sp.Rule, sp.Key, sp.Spec, sp.What)
+	}
 }
 
 // exactThreshold computes ceil(s(1 - a - 3 sqrt(a(1-a)/s))) with a = 1/100 in extended precision,
@@ -511,4 +531,28 @@ func checkTQCommute(c *Check, p *Prog, rule string) {
 	c.Expect(len(bad) == 0 && nInc >= 2, rule, "ThresholdQ", where,
 		fmt.Sprintf("the binning loop's only effects are %d constant-index `+1` increments guarded by comparisons of the current element; elements are read nowhere else => permutation-invariant", nInc),
 		strings.Join(bad, " | "))
+}
+
+func btoi(b bool) int {
+	if b {
+		return 1
+	}
+	return 0
+}
+
+// thresholdBoundIsInteger: 0.99 s - 3 sqrt(0.0099 s) is an integer, i.e. (99 s - 100 k)^2 = 9*99*s for some integer k with 99 s - 100 k >= 0.
+func thresholdBoundIsInteger(s int64) bool {
+	// d = 3*sqrt(99 s) must be an integer with d ≡ 99 s (mod 100)
+	q := 9 * 99 * s
+	d := int64(math.Sqrt(float64(q)))
+	for d*d > q {
+		d--
+	}
+	for (d+1)*(d+1) <= q {
+		d++
+	}
+	if d*d != q {
+		return false
+	}
+	return (99*s-d)%100 == 0
 }
